@@ -512,7 +512,8 @@ def parse_result(defs):
     if not ok:
         bad(m["__getattr__"], "__getattr__ is not try: return self[name] / except ...")
     h = body[0].handlers[0]
-    if not (isinstance(h.type, ast.Name) and h.type.id in EXC_CLASSES and len(h.body) == 1 and isinstance(h.body[0], ast.Raise)):
+    # a handler for a SUPERCLASS of KeyError (LookupError, Exception, BaseException) also catches it: not expressible as "the caught class"
+    if not (isinstance(h.type, ast.Name) and h.type.id in EXC_CLASSES - {"Exception"} and len(h.body) == 1 and isinstance(h.body[0], ast.Raise)):
         bad(h, "handler outside the whitelist")
     r = h.body[0]
     if not (isinstance(r.exc, ast.Call) and isinstance(r.exc.func, ast.Name) and r.exc.func.id in EXC_CLASSES and not r.exc.keywords
